@@ -720,7 +720,7 @@ func ctxLayers(tier string) []Layer {
 		layers = append(layers, Layer{
 			Name:   "A4-operand-classes",
 			Units:  len(cops),
-			Bounds: fmt.Sprintf("Context.Add/Sub/Mul/Quo/FMA/Sqrt/Set on every tuple of operands from {+0, −0, +Inf, −Inf, 3, −3, 123.45, −4} (8, 64 or 512 tuples), context precision {2, 7}, 6 modes, receiver fresh / previously −Inf: the result (sign of zeros, infinities) equals the reference; an invalid combination does not panic and latches ErrNaN: the next operation returns its receiver untouched, Err() returns the ErrNaN once and re-arms the context"),
+			Bounds: fmt.Sprintf("Context.Add/Sub/Mul/Quo/FMA/Sqrt/Set on every tuple of operands from {+0, −0, +Inf, −Inf, 3, −3, 123.45, −4} (8, 64 or 512 tuples), context precision {2, 7}, 6 modes, receiver fresh / previously −Inf / fresh with equal operands passed as the same variable: the result (sign of zeros, infinities) equals the reference; an invalid combination does not panic and latches ErrNaN: the next operation returns its receiver untouched, Err() returns the ErrNaN once and re-arms the context"),
 			Run: func(c *Ctx, u int) {
 				op := cops[u]
 				n := 1
@@ -731,7 +731,17 @@ func ctxLayers(tier string) []Layer {
 					idx := []int{t % len(cls), t / len(cls) % len(cls), t / len(cls) / len(cls) % len(cls)}[:op.arity]
 					for _, p := range []uint{2, 7} {
 						for _, m := range M6 {
-							for rk := 0; rk < 2; rk++ {
+							for rk := 0; rk < 3; rk++ {
+								// rk == 2: operands of the same class are the same variable (x − x, x·x, FMA(x, x, x) …)
+								repeated := false
+								for a := range idx {
+									for b := 0; b < a; b++ {
+										repeated = repeated || idx[a] == idx[b]
+									}
+								}
+								if rk == 2 && !repeated {
+									continue
+								}
 								if c.Skip() {
 									continue
 								}
@@ -739,8 +749,16 @@ func ctxLayers(tier string) []Layer {
 								var args []*Dec
 								var vals []Val
 								desc := ""
+								shared := map[int]*Dec{}
 								for _, i := range idx {
-									args = append(args, cls[i].Build())
+									d := cls[i].Build()
+									if rk == 2 {
+										if sd, ok := shared[i]; ok {
+											d = sd
+										}
+										shared[i] = d
+									}
+									args = append(args, d)
 									vals = append(vals, cls[i].V)
 									desc += " " + cls[i].String()
 								}
